@@ -116,6 +116,10 @@ pub fn measured<R>(f: impl FnOnce() -> R) -> (Result<R, String>, u64, u64) {
             } else {
                 "panic".to_string()
             };
+            if msg.starts_with("harness:") {
+                eprintln!("{msg}");
+                std::process::exit(3);
+            }
             (Err(msg), n, m)
         }
     }
